@@ -10,7 +10,10 @@ DRV = ("The generated parsers are verified as rendered text: on every run an inj
        "Go modes; the static driver functions (Action, PushStateSym, PopStateSym, ParserInit, ReduceFunc shell, Parser, fetchLookAhead, TraceShift) of the "
        "goCode and goObject renderings, packed and unpacked, are put under ONE contract text (goObject through renamings) and every obligation is discharged "
        "by SMT; the per-rule reduce cases are replaced mechanically by one schematic case whose holes are tied to the grammar by `emits` obligations on "
-       "buildReduceFunc/buildConstPart, and every rendered case must have that shape. ")
+       "buildReduceFunc/buildConstPart, and every rendered case must have that shape. The TypeScript driver is handled the same way: the real TsGenFromString is run on every example, "
+       "the static pieces of the emitted text (class StateSym, PushStateSym, PopStateSym, initialize, Parser, fetchLookAhead, the frames of ReduceFunc and translate) are transliterated "
+       "line by line into Go by nine syntactic rules (govc/tsrender.go; objects become pointers) and verified against the clauses of the Go drivers restated over a stack of references "
+       "(section ts of Builder/driver_contracts_verif.go); text outside the rules is reported, not guessed. ")
 STAGES = ("This end-to-end property also depends on every stage between the grammar text and the tables; the stage contracts are discharged in the same run (`govc -with`) "
           "and reported under this property: token definitions, codes and tags (lexer literal token, parseTokendef, parsePrecList, parseRule, astDeclareVistor.Process, BuildLALR1, "
           "translate builders - the C11 contracts), usability checks and nullable/productive fixpoints (C12), the LR(0) leaf functions and local worklist steps (C09: ComputeIClosure = "
@@ -21,7 +24,8 @@ DRVNOTE = (TB + "Hypotheses used as axioms (not proved here): the LR(0)-automato
        "(TrySplitTable's proved postcondition, assumed at the interface). Trusted contracts: translate, GetToken (user code), TraceTranslate, TraceReduce, "
        "actionCodeReplace; assumption A-act (semantic actions touch only $$/$n). Interior pointers &stack[i] are modelled as snapshots; slice capacity/aliasing "
        "is not modelled. Literature lemma (stated, not mechanised): a shift-reduce run whose every reduction pops rhs(r) and pushes lhs(r) is a reversed rightmost derivation. "
-       "The TypeScript driver string is not verified (only the numbers the Go code emits into it).")
+       "TypeScript: what is verified is the transliteration described above; dropped are comments, semicolons, the user's prologue / epilogue / union members / action bodies and the numbers "
+       "of the table literal; not captured: number is a double, an out-of-range array read yields undefined (every read is proved in range), undefined == null == nil.")
 claimed = {
  "C18": dict(
    text="Deductive proof that the DOT diagram is drawn from the same dense table the generated parser uses. Calls into gographviz are recorded in a ghost "
@@ -61,7 +65,7 @@ claimed = {
         "refused iff some nonterminal is unproductive.",
    note=TB + "That closed + justified-at-marking-time implies LEAST fixpoint is the standard ranking argument, stated not mechanised. Termination of the fixpoint loops is "
         "not proved. Also proved: RuleVistor.Process appends a right-hand-side symbol only if it is in the identifier table and otherwise stops with the panic `It's not define symbol` (may_panic contract). BuildLALR1: a nonterminal identifier becomes a nonterminal symbol; the LR(0) construction is reached only if every nonterminal symbol is the left-hand side of a rule "
-        "and CalculateCanTerminate returned the empty list, otherwise generation stops with its message. NOT under contract: the 2000-state limit.",
+        "and CalculateCanTerminate returned the empty list, otherwise generation stops with its message. ComputeAllGoto: the refusal `too manay states!` is reached only when the number of STATES is >= 2000 (the limit the property names); that a grammar below it never trips other limits is by reading.",
    design="§5 C12", technique="contract-based deductive verification (loop invariants + statement-level assertions)"),
  "C17": dict(
    text=DRV + "C17: fmt.Printf is modelled by a ghost output log. TraceShift is proved to log exactly (name of the pushed symbol, pushed state); PushStateSym logs exactly "
@@ -107,7 +111,7 @@ claimed = {
         "(c) both builders emit `const NAME = Value` from the table entry of a terminal and translate cases `code -> symbol id` for terminals only, "
         "(d) the lexer's character-literal token carries a lexeme whose first rune is the character written (sender-side token log), a %token with a number keeps it, a name "
         "without number or introduced by a precedence line gets 0 = automatic, (e) BuildLALR1 copies name, code and tag of every identifier onto its grammar symbol and gives the "
-        "end marker the code -1.",
+        "end marker the code -1, (f) in every rendered Go parser translate() and TraceTranslate() are nothing but the emitted cases (extraction obligation shape:translate-cases: `var conv = zero; switch c { case <int>: conv = <literal> ... }; return conv`, no default clause), so a code without a case maps to symbol 0 = error.",
    note=TB + "The token cursor parser.next/backup/expect is verified (C13); assumed at the receive site: a character token has a non-empty lexeme. Trusted contracts: SortedIdNames (returns the keys), "
         "utf8.DecodeRuneInString. Interior pointers &IdentifyList[i] are modelled as fresh objects holding a copy (the slice element is never read again). "
         "Not proved: that EVERY terminal gets a translate case (only: each case is right and no nonterminal has one). A-seq: the token received is the token sent.",
@@ -176,13 +180,15 @@ claimed = {
    design="§5 C07", technique="contract-based deductive verification of the rendered driver"),
  "C08": dict(
    text=DRV + "C08: the goCode and goObject renderings, packed and unpacked, are verified against the same contract text (renaming StateSymStack/StackPointer to "
-        "c.StackSym/c.Stackpos): each refines the same step specification over T; both builders emit the same constants and per-rule numbers (shared emits clauses), the TypeScript builder the same translate cases, reduce cases and $n substitution. "
+        "c.StackSym/c.Stackpos): each refines the same step specification over T; both builders emit the same constants and per-rule numbers (shared emits clauses), the TypeScript builder the same translate cases, reduce cases and $n substitution; the TypeScript "
+        "driver (transliterated) satisfies the same step clauses: the action consulted is the table cell of (top state, lookahead), a shift happens only on a transition and pushes (target, lookahead, token value), "
+        "a reduction only with rhs(r) on top, then (goto(top, lhs), lhs, $$) is pushed, accept only in [0, goto(0,S)] returning that entry's value. "
         "A fresh stack array per ParserInit in global mode (what object mode gets from a fresh context). " + STAGES,
    note=DRVNOTE, design="§S.2 C08", technique="contract-based deductive verification: two implementations against one contract"),
  "C15": dict(
    text=DRV + "C15: ParserInit establishes StackPointer==1 with bottom entry (0,$,zero); PushStateSym never writes below the old stack pointer; every stack read of the driver is "
         "below the stack pointer (bounds obligations under INV); $$ of every reduction is a fresh zero value (no state carried between reductions or parses); object-mode "
-        "methods modify only their own context (frame obligations).",
+        "methods modify only their own context (frame obligations). TypeScript: initialize() leaves a NEW one-entry array (0, $, no value) and StackPointer == 1.",
    note=DRVNOTE + " Data-race freedom of different contexts is argued from the frames (disjoint write sets, read-only tables), not model-checked. Reuse of the stack's backing "
         "array across ParserInit (aliasing of a previously returned *ValType) is outside the value model of slices.",
    design="§5 C15", technique="contract-based deductive verification of the rendered driver (postconditions + frames)"),
@@ -208,7 +214,7 @@ claimed = {
         "states, for every (state, symbol), lookup(packed arrays, ActionDef, GoToDef) == dense table entry - the statement of C05 itself. "
         "All index expressions are proved in range.",
    note=TB + "Assumed contract: sort.SliceStable yields a permutation. TrySplitTable requires a table without zero entries and the symbol layout "
-        "len(row)==len(VtSet)+len(VnSet) (established by GenTable/BuildLALR1, not yet proved). The generated (*StateSym).Action has an extra "
+        "len(row)==len(VtSet)+len(VnSet): GenTable proves len(row)==len(Symbols) and no zero cell; Grammar.ResolveSymbols is proved to make VtSet exactly the set of terminals of the symbol list (every declared token, used in a rule or not); the step from the two sets to the cardinalities is by reading (symbols are distinct pointers), not by proof. The generated (*StateSym).Action has an extra "
         "shortcut (offset+a<0 => ERROR) that is covered with the driver contracts, not here. findMaxOccurence's result is arbitrary for C05 (any default is lossless).",
    design="§5 C05, Appendix A.1/A.2", technique="contract-based deductive verification (govc VC generator + SMT), quantified loop invariants"),
  "C04": dict(
